@@ -20,6 +20,7 @@ import drive_datafile as dd
 
 THEOREMS = ['RB.Loader.c09_load_total', 'RB.Loader.c09_load_after_any_prefix']
 VARIANT = os.environ.get('VERIF_MODEL_VARIANT', 'repaired')
+DECODE = os.environ.get('VERIF_C09_DECODE', 'tolerant')   # development: 'strict' = loader that raises UnicodeDecodeError
 PROFILE_JSON = os.environ.get('VERIF_C09_PROFILE_JSON', 'checked')   # development: 'any' = loader without the JSON check
 
 
@@ -31,22 +32,29 @@ def gen_params(rng, idx):
         # old file holds run B completely; B's data is reloaded, C and D are new (metadata records appended)
         {'benchmarks': ['B', 'C', 'D'], 'old': ['B'], 'invocations': 3, 'iterations': 1, 'crits': 2},
         # three data points per invocation, no extra criteria
-        {'benchmarks': ['B7', 'C'], 'old': ['C'], 'invocations': 2, 'iterations': 3, 'crits': 0},
+        # (non-ASCII benchmark names: they are written as they are into the measurement lines and the
+        # `#!` line, so a cut can fall between the bytes of a character)
+        {'benchmarks': [u'B\u00e97', u'C\u65e5'], 'old': [u'C\u65e5'], 'invocations': 2, 'iterations': 3, 'crits': 0},
         # a profile data file: one line per invocation, run id in the column before the JSON column
         {'benchmarks': ['B', 'C'], 'old': ['B'], 'invocations': 2, 'iterations': 1, 'crits': 0, 'profile': True},
     ]
+    # non-ASCII text (descriptions, an env value) in fields that are recorded in the JSON metadata:
+    # the appended bytes stay ASCII only because the records are written with ensure_ascii
+    fixed[0]['unicode'] = True
+    fixed[1]['unicode'] = True
     if idx < len(fixed):
         return fixed[idx]
     nb = rng.randint(1, 3)
-    names = rng.sample(['B', 'C', 'D', 'Fib', 'N1'], nb)
+    names = rng.sample(['B', 'C', 'D', 'Fib', 'N1', u'G\u00fc', u'\u03a9m'], nb)
     old = [b for b in names if rng.random() < 0.4]
     if len(old) == len(names):
         old = old[:-1]
+    uni = rng.random() < 0.5
     if rng.random() < 0.25:
         return {'benchmarks': names, 'old': old, 'invocations': rng.randint(1, 3), 'iterations': 1, 'crits': 0,
-                'profile': True}
+                'profile': True, 'unicode': uni}
     return {'benchmarks': names, 'old': old, 'invocations': rng.randint(1, 3),
-            'iterations': rng.randint(1, 3), 'crits': rng.randint(0, 2)}
+            'iterations': rng.randint(1, 3), 'crits': rng.randint(0, 2), 'unicode': uni}
 
 
 class Base(object):
@@ -57,7 +65,10 @@ class Base(object):
         shutil.rmtree(wd, ignore_errors=True)
         self.profile = bool(params.get('profile'))
         self.scn = dd.Scenario(wd, params['benchmarks'], params['invocations'], params['iterations'], params['crits'],
-                               profile=self.profile)
+                               profile=self.profile, unicode_text=bool(params.get('unicode')))
+        # the file is handled as bytes (latin-1: one character per byte), so that a cut can fall
+        # between the bytes of a multi-byte character, like a power loss can
+        self.scn.encoding = 'latin-1'
         scn = self.scn
         self.problems = []
         if params['old']:
@@ -78,6 +89,9 @@ class Base(object):
         self.base_serial = scn.serial
         self.base_session = scn.session
         self.lines = dd.parse_file(self.appended)
+        # side condition of the byte-prefix theorem: what a session appends is ASCII (the metadata
+        # records are written with ensure_ascii, names and command line of the scenario are ASCII)
+        self.non_ascii = [i for i, c in enumerate(self.appended) if ord(c) >= 0x80]
         # process-kill model: what can be on disk when the process dies are the flush boundaries.
         # The model's writer flushes after the session block and after every data point.
         want = set()
@@ -183,6 +197,8 @@ def cut_points(base, rng, tier, n_random):
         if d['kind'] in ('bench_meta', 'run_meta'):
             eq = app.index('=', s)
             cuts.update([eq, eq + 1, eq + 2, s + 5, s + 12, s + 14])
+    for p_ in base.non_ascii[:24]:
+        cuts.update([p_, p_ + 1])                  # between the bytes of multi-byte characters
     for _ in range(n_random if n > 2 else 0):
         cuts.add(rng.randint(1, n - 1))
     return sorted(c for c in cuts if 0 <= c <= n)
@@ -223,6 +239,7 @@ def model_op(base, text):
     if base.profile:
         prof = 'any' if PROFILE_JSON == 'any' else sorted(set(d['json'] for d in lines if d['kind'] == 'prof'))
     op = {'op': 'c09.load', 'text': text, 'hdr': dd.HDR, 'variant': VARIANT, 'profile_json': prof,
+          'decode_tolerant': DECODE != 'strict',
             'bench_payloads': bp, 'run_payloads': rp,
           'cfg': [[i, i, base.params['invocations'], base.params['iterations']] for i in range(len(names))]}
     if VARIANT.startswith('custom:'):  # development: e.g. custom:1,0,0 = only the first repair
@@ -233,7 +250,8 @@ def model_op(base, text):
 
 STATUS_OF_END = {'ok': ('ok', 'failed'), 'uiError': ('ui_error',),
                  'crash:value': ('crash:ValueError', 'crash:JSONDecodeError'),
-                 'crash:index': ('crash:IndexError',), 'crash:assertion': ('crash:AssertionError',)}
+                 'crash:index': ('crash:IndexError',), 'crash:assertion': ('crash:AssertionError',),
+                 'crash:decode': ('crash:UnicodeDecodeError',)}
 
 
 def complete_dps(text, starts):
@@ -284,6 +302,8 @@ def judge_cut(acc, base, obs, answers, writer=(None, None)):
     acc.count('cut:' + cut_in.split(':field')[0])
     if k in base.flush_offsets:
         acc.count('cut-at-flush-boundary')
+    if 0 < k < len(base.appended) and 0x80 <= ord(base.appended[k]) < 0xC0:
+        acc.count('cut-inside-multi-byte-character')
     starts = obs['starts']
     sidx = {}
     for st in starts:
@@ -399,6 +419,15 @@ def process(params, wd, cuts, model_fn, timing=None):
     if base.problems:
         acc.disagree('c09: base sessions did not run as assumed', {'params': params}, {'problems': base.problems}, None)
         return acc, base
+    if params.get('unicode'):
+        acc.count('scenario-with-non-ascii-text-in-metadata-fields')
+    if base.non_ascii and all(ord(c) < 0x80 for b in params['benchmarks'] for c in b):
+        i0 = base.non_ascii[0]
+        acc.disagree('c09: the session appended non-ASCII bytes - the side condition "the appended text is ASCII" of '
+                     'the byte-prefix theorem (guaranteed by ensure_ascii for the metadata records) does not hold',
+                     {'params': params}, {'non_ascii_bytes': len(base.non_ascii),
+                                          'first_at': i0, 'context': base.appended[max(0, i0 - 50):i0 + 20]},
+                     {'non_ascii_bytes': 0}, ['RB.Loader.c09_load_after_any_byte_prefix_rendered'])
     obs = [eval_cut(base, k) for k in cuts(base)]
     ops = []
     for o in obs:
@@ -469,7 +498,8 @@ def writer_ops(base, o, ses, ans, after):
                                lambda o: names.index(o['cmdline'].split()[-1]) if o['cmdline'].split()[-1] in names else 99)
     op3 = {'op': 'c09.render', 'benches': ans['benches'], 'runs': ans['runs'], 'empty': before == '',
            'cmd': alines[0][2:], 'hdr': dd.HDR, 'comments': alines[1:4], 'dps': dps, 'profile': base.profile,
-           'cols': [[i, [b, 'E', 'S', '', '1', '', '', '', '']] for i, b in enumerate(names)],
+           'cols': [[i, [b.encode('utf-8').decode('latin-1'), 'E', 'S', '', '1', '', '', '', '']]
+                    for i, b in enumerate(names)],
            'units': [['total', 'ms']] + [['c%d' % c, 'kb'] for c in range(3)],
            'bench_json': [[k, pj] for (pj, k) in bp], 'run_json': [[k, bid, pj] for (pj, k, bid) in rp]}
     return [op1, op2, op3]
@@ -512,6 +542,9 @@ def run_corpus(ck):
 def select_cuts(base, w):
     """a corpus witness names its cut structurally (so it survives changes of path lengths)"""
     want = w['cut_in']
+    if want == 'non_ascii':
+        # the cuts behind the first bytes of multi-byte characters (none if the appended text is ASCII)
+        return [p_ + 1 for p_ in base.non_ascii[:6]]
     out = []
     for k in range(len(base.appended) + 1):
         if classify_cut(base, k) == want:
